@@ -5,6 +5,8 @@ from LLVM IR.  Entry points (each returns the part dict of lib/vcommon.new_part)
     c16_cc_truncation(prop, tier, seed)  truncated streams must be reported (C16)
     c17_cc_blocks(prop, tier, seed)      ReadBlock / ReadBlocksIntoVector batching independence (C17)
     c15_cc_header(prop, tier, seed)      ReadHeader refuses foreign streams (C15)
+    c17_cc_reuse(prop, tier, seed)       readers called with an arbitrary prior destination (C17; ReadMap finding F5)
+    c01_cc_serializers(prop, tier, seed) serializers.h write/read pairs and the integer dispatch table (C01, C03)
 
 Run one from the command line:  python3-vt /verif/parts/cc_kernels.py c01_cc_kernels quick
 """
@@ -32,8 +34,9 @@ ASSUME_COMMON = [
     "llsym: clang++-14 -std=c++17 IR of the unmodified headers under /repo is executed; x86-64 SysV data layout; "
     "pointers are (object, offset) pairs and every load/store/GEP is checked against its object",
     "llsym: exceptions end the path at __cxa_throw (cleanups are not run; no catch clause is on any executed path, checked)",
-    "the classes' implicit precondition buffer_size >= MAX_VARINT64_BYTES (10) is assumed for the 64-bit varint entry points (they run at N=12 "
-    "instead of N=8): with a smaller buffer the unchecked fast encoder/decoder overruns the vector even on valid data",
+    "CodedOutputStream's implicit precondition buffer_size >= MAX_VARINT64_BYTES (10) is assumed for WriteVarInt64 (N=12 instead of N=8): with a "
+    "smaller buffer the unchecked encoder overruns the vector even on valid data; the 64-bit varint readers run at N=12 in quick and at N=8 "
+    "as well in thorough (safe since the FillBufferOrThrow fix)",
     "llsym: bounds are per task (buffer size N, input bytes M); nothing is claimed for other N, in particular not for the production N=65536 "
     "except through the size-independent shape of the invariant step",
 ]
@@ -60,6 +63,8 @@ def _stub_lines(names):
             c = stubs.CONTRACTS['std::vector<T>::resize']
         if c is None and "basic_string" in n:
             c = stubs.CONTRACTS['std::string']
+        if c is None and "unordered_map" in n:
+            c = stubs.CONTRACTS['std::unordered_map<K,V>::emplace' if "emplace" in n else 'std::unordered_map<K,V>::clear/size/reserve']
         out.append("%s: %s" % (n, c or "trusted model (see engine/llsym/stubs.py)"))
     return out
 
@@ -109,7 +114,7 @@ def _merge(part, results):
     return part
 
 
-REPLAY_SRC = {"kernels": "replay_kernels.cc", "blocks": "replay_blocks.cc"}
+REPLAY_SRC = {"kernels": "replay_kernels.cc", "blocks": "replay_blocks.cc", "reuse": "replay_reuse.cc"}
 
 
 class Native:
@@ -137,7 +142,9 @@ class Native:
         cmd = "clang++-14 -std=c++17 -O1 -DNDEBUG -I %s%s <this file> -o replay && ./replay" % (
             build.INC, (" -I " + build.STUBINC) if self.stub else "")
         baked = "{" + ", ".join(json.dumps(a) for a in argv) + "}"
-        body = "// compile: %s\n// (drop -DNDEBUG to see the debug-build assertion)\n" % cmd
+        body = "// compile: %s\n" % cmd
+        if any("debug build" in h for h in header_lines):
+            body += "// (drop -DNDEBUG to see the debug-build assertion)\n"
         for h in header_lines:
             body += "// %s\n" % h
         body += "#define BAKED_ARGS %s\n" % baked + src
@@ -271,26 +278,35 @@ def _kernel_part(name, prop, tier, seed, modes):
         cmds.append(cmd)
     specs = []
     budget = 780 if thorough else 75
-    CHEAP_OK_32 = ("ReadVarU32", "ReadVarI32", "ReadFixed1", "ReadFixed2", "ReadFixed4", "ReadFixed8", "ReadByte", "VerifyFinished")
-    plan = [(N, nd, None) for N in Ns for nd in builds]
+    FIXED_R = ("ReadFixed1", "ReadFixed2", "ReadFixed4", "ReadFixed8", "ReadByte", "VerifyFinished")
+    FIXED_W = ("WriteFixed1", "WriteFixed2", "WriteFixed4", "WriteFixed8", "WriteByte", "WriteBytes")
+    # plan entries: (N, ndebug, round-trip reader ops, truncation reader ops, writer ops); None = all
+    plan = [(N, nd, None, None, None) for N in Ns for nd in builds]
     if thorough:
-        plan.append((32, True, CHEAP_OK_32))   # N=32: all writer and truncation tasks, the cheaper round-trip tasks
-    for N, nd, ok_subset in plan:
+        # N=32: everything except the 64-bit varint round trips; N=64: the fixed-width and byte paths
+        plan.append((32, True, FIXED_R + ("ReadVarU32", "ReadVarI32", "ReadBytes"), None, None))
+        plan.append((64, True, FIXED_R, FIXED_R + ("ReadBytes",), FIXED_W))
+        # since the FillBufferOrThrow fix the 64-bit varint readers no longer need buffer_size >= 10: also run them at N=8
+        plan.append((8, True, ("ReadVarU64", "ReadVarI64"), ("ReadVarU64", "ReadVarI64"), ()))
+    for N, nd, ok_ops, trunc_ops, w_ops in plan:
         base = dict(N=N, ndebug=nd, ir=irs[nd], seed=seed, budget_s=budget, samples=(24 if thorough else 3),
                     stride=(1 if thorough else 2), xcheck=(6 if thorough else 0))
+        explicit8 = ok_ops is not None and N == 8
         if "writer" in modes:
             for op in cc_common.WRITE_OPS:
+                if w_ops is not None and op not in w_ops:
+                    continue
                 b = dict(base, N=12) if (op in ("WriteVarU64", "WriteVarI64") and N < 10) else base
                 specs.append(dict(b, kind="writer", op=op))
         for op in cc_common.READ_OPS:
             b = base
-            if op in ("ReadVarU64", "ReadVarI64") and N < 10:
-                # the class needs buffer_size >= MAX_VARINT64_BYTES (the unchecked fast decoder runs on a freshly
-                # filled buffer): N=8 would be outside its implicit precondition, so these two use N=12
+            if op in ("ReadVarU64", "ReadVarI64") and N < 10 and not explicit8:
+                # historically the class needed buffer_size >= MAX_VARINT64_BYTES for these two (unchecked fast decoder on a
+                # freshly filled buffer); they run at N=12 in the N=8 plan, and additionally at N=8 in the thorough tier
                 b = dict(base, N=12)
-            if "ok" in modes and (ok_subset is None or op in ok_subset):
+            if "ok" in modes and (ok_ops is None or op in ok_ops):
                 specs.append(dict(b, kind="reader", op=op, mode="ok"))
-            if "trunc" in modes:
+            if "trunc" in modes and (trunc_ops is None or op in trunc_ops):
                 specs.append(dict(b, kind="reader", op=op, mode="trunc"))
     if not thorough and "ok" in modes:
         # quick tier: debug-build (asserts enabled) spot check of the two entry points that assert
@@ -340,11 +356,22 @@ def c15_cc_header(prop="C15", tier="quick", seed=0, **kw):
     return cc_blocks.header_part(prop, tier, seed)
 
 
+def c17_cc_reuse(prop="C17", tier="quick", seed=0, **kw):
+    from parts import cc_reuse
+    return cc_reuse.reuse_part(prop, tier, seed)
+
+
+def c01_cc_serializers(prop="C01", tier="quick", seed=0, **kw):
+    from parts import cc_reuse
+    return cc_reuse.serializers_part(prop, tier, seed)
+
+
 if __name__ == "__main__":
     fn = sys.argv[1] if len(sys.argv) > 1 else "c01_cc_kernels"
     tier = sys.argv[2] if len(sys.argv) > 2 else "quick"
     seed = int(os.environ.get("VERIF_SEED", "0"))
-    prop = {"c01_cc_kernels": "C01", "c16_cc_truncation": "C16", "c17_cc_blocks": "C17", "c15_cc_header": "C15"}.get(fn, "C00")
+    prop = {"c01_cc_kernels": "C01", "c16_cc_truncation": "C16", "c17_cc_blocks": "C17", "c15_cc_header": "C15",
+            "c17_cc_reuse": "C17", "c01_cc_serializers": "C01"}.get(fn, "C00")
     res = globals()[fn](prop, tier, seed)
     json.dump(res, sys.stdout, indent=1, default=str)
     print()
